@@ -45,9 +45,15 @@ type world struct {
 	lastPlain []*gocql.HostInfo
 	// third round: session keyspace + keyspace metadata (tables recomputed by the code itself), live iterators,
 	// concurrent bursts
-	sessKs  string            // "" = a keyspace no query names
-	ksMeta  map[string]string // keyspace -> "local" | replication factor of SimpleStrategy (absent: unknown keyspace)
-	injSess bool              // a `repl` line installed a table for the session keyspace (hook, not the code's path)
+	sessKs string            // "" = a keyspace no query names
+	ksMeta map[string]string // keyspace -> "local" | replication factor of SimpleStrategy (absent: unknown keyspace)
+	// held: the keyspaces the policy holds a replica table for (possibly an empty one) - by the op lines: installed by a
+	// `repl` line or computed by updateReplicas with a usable strategy; these are the keyspaces the repaired code
+	// (KF-C10-4: updateAllReplicas) recomputes on every change of the policy's host list, besides the session keyspace
+	held map[string]bool
+	// inj: the keyspaces whose CURRENT table was installed by a `repl` line (hook, not the code's path) and has not been
+	// recomputed by the policy since
+	inj map[string]bool
 	slots   map[int]*slot
 	epoch   int          // number of mutating ops so far
 	taint   map[int]bool // hosts with non-commuting concurrent calls not yet settled by a sequential add/remove
@@ -258,12 +264,36 @@ func (w *world) taHostsSpec() []*gocql.HostInfo {
 }
 
 // specFresh: the replica list of a query on keyspace ks is guaranteed fresh - it comes from the token ring
-// (no table) or from the table of the SESSION keyspace, which AddHost / RemoveHost recompute
+// (no table) or from a table the policy computed itself: after the repair of KF-C10-4 AddHost / RemoveHost
+// recompute the table of EVERY held keyspace. Not fresh: a table a `repl` line installed (hook) that the policy
+// has not recomputed since.
 func (w *world) specFresh(ks string) bool {
 	if ks == "-" {
 		return true
 	}
-	return len(w.tables["ks"+ks]) == 0 || ("ks"+ks == w.sessKs && !w.injSess)
+	return len(w.tables["ks"+ks]) == 0 || !w.inj["ks"+ks]
+}
+
+// specRefreshAll: what updateAllReplicas must produce - the session keyspace and every other held keyspace
+// recomputed from the hosts the history knows (a keyspace that is unknown / has no usable strategy loses its table
+// and is no longer held)
+func (w *world) specRefreshAll() {
+	if !w.isTA || !w.partSet {
+		return
+	}
+	var keys []string
+	for ks := range w.held {
+		if ks != w.sessKs {
+			keys = append(keys, ks)
+		}
+	}
+	sort.Strings(keys)
+	if w.sessKs != "" {
+		keys = append([]string{w.sessKs}, keys...)
+	}
+	for _, ks := range keys {
+		w.specRefresh(ks)
+	}
 }
 
 // specRefresh: the harness' own SimpleStrategy placement (Cassandra: walk the ring clockwise from the token,
@@ -275,10 +305,13 @@ func (w *world) specRefresh(ksName string) {
 	}
 	delete(w.tables, ksName)
 	delete(w.tableDup, ksName)
+	delete(w.inj, ksName)
+	delete(w.held, ksName)
 	m, ok := w.ksMeta[ksName]
 	if !ok || m == "local" {
 		return
 	}
+	w.held[ksName] = true
 	rf := atoi(m)
 	type rt struct {
 		tok int
@@ -310,7 +343,7 @@ func (w *world) specRefresh(ksName string) {
 	}
 	w.tables[ksName] = tab
 	if len(tab) == 0 {
-		// an empty table is held but never consulted (replicasFor of an empty table is nil)
+		// an empty table is held (w.held) but never consulted (replicasFor of an empty table is nil)
 		delete(w.tables, ksName)
 	}
 }
@@ -497,7 +530,7 @@ func (w *world) exec(op string) (res string) {
 		w.tableDup = map[string]bool{}
 		w.hot = false
 		w.lastPlain = nil
-		w.sessKs, w.ksMeta, w.injSess = "", map[string]string{}, false
+		w.sessKs, w.ksMeta, w.held, w.inj = "", map[string]string{}, map[string]bool{}, map[string]bool{}
 		w.slots, w.epoch, w.taint, w.pending, w.mutLog = map[int]*slot{}, 0, map[int]bool{}, nil, nil
 		w.poisoned = false
 		if w.isTA {
@@ -641,9 +674,8 @@ func (w *world) exec(op string) (res string) {
 		}
 		if w.isTA {
 			if gocql.VerifTASetReplicas(w.pol, "ks"+f[1], toks, hs) {
-				if "ks"+f[1] == w.sessKs {
-					w.injSess = true
-				}
+				w.held["ks"+f[1]] = true
+				w.inj["ks"+f[1]] = true
 				tab := make([]tabEntry, len(hs))
 				for i := range hs {
 					// the harness keeps its OWN copy of every replica list (the policy must not be able to change the specification)
@@ -1072,8 +1104,8 @@ func (w *world) exec(op string) (res string) {
 			}
 		}
 		w.pending = calls
-		if changedT && w.sessKs != "" {
-			w.specRefresh(w.sessKs)
+		if changedT {
+			w.specRefreshAll()
 		}
 		return "ok"
 	case "settle":
@@ -1132,8 +1164,8 @@ func (w *world) exec(op string) (res string) {
 					}
 				}
 			}
-			if resolved && w.sessKs != "" {
-				w.specRefresh(w.sessKs)
+			if resolved {
+				w.specRefreshAll()
 			}
 		}
 		if !same {
@@ -1174,8 +1206,9 @@ func (w *world) lookupKs(ks string) (string, interface{}, bool) {
 	return "org.apache.cassandra.locator.SimpleStrategy", m, true
 }
 
-// call: one notifier call on the real policy + the history; the harness' own copy of the session keyspace's
-// table is recomputed when the call changes the set of hosts the policy knows
+// call: one notifier call on the real policy + the history; the harness' own copy of every held table (the
+// session keyspace's and every other held keyspace's: updateAllReplicas, repair of KF-C10-4) is recomputed when
+// the call changes the set of hosts the policy knows
 func (w *world) call(ev string, id int, h *gocql.HostInfo) {
 	var tBefore []*gocql.HostInfo
 	al := w.isTA && w.alias()
@@ -1194,7 +1227,7 @@ func (w *world) call(ev string, id int, h *gocql.HostInfo) {
 	case "hdown":
 		w.pol.HostDown(h)
 	}
-	if !w.isTA || w.sessKs == "" || (ev != "add" && ev != "remove") {
+	if !w.isTA || (ev != "add" && ev != "remove") {
 		return
 	}
 	changed := w.stat(id).known != before
@@ -1208,7 +1241,7 @@ func (w *world) call(ev string, id int, h *gocql.HostInfo) {
 		}
 	}
 	if changed {
-		w.specRefresh(w.sessKs)
+		w.specRefreshAll()
 	}
 }
 
@@ -1278,13 +1311,14 @@ func (w *world) exclusion(reps []*gocql.HostInfo, known, fresh bool) string {
 	if known {
 		for _, h := range w.specHead(reps) {
 			st := w.stat(w.ids[h])
-			// KF-C11-5, exactly: (b) reported down while its state is up; (a) removed / never added, in a replica list
-			// that is not recomputed on topology changes (the table of a keyspace other than the session's)
+			// KF-C11-5 (case (b), all that is left of it after the repair of KF-C10-4): reported down while its state is up
 			if st.last == "hdown" {
 				return "stale-down"
 			}
+			// not a finding but an assumption on the hook: a table installed by a `repl` line (and not recomputed by the
+			// policy since) lists a host the policy does not know (removed / never added)
 			if !st.known && !fresh {
-				return "stale-otherks"
+				return "inj-unknown"
 			}
 		}
 	}
@@ -1326,8 +1360,8 @@ func (w *world) oracle(got []*gocql.HostInfo, nHead int, dupReps bool, headAny [
 			if w.taint[id] {
 				continue // non-commuting concurrent calls: either outcome is accepted
 			}
-			// KF-C11-5, exactly: a stale replica is excused if it was reported down (state up), or is unknown in a
-			// replica list that is not recomputed on topology changes
+			// KF-C11-5 (b), exactly: a stale replica is excused if it was reported down (state up); besides, an unknown
+			// host in a table that a `repl` line installed and the policy has not recomputed since (hook, not the code)
 			excused := inHead[h] && (st.last == "hdown" || (!st.known && !fresh))
 			if st.expected(h.IsUp()) {
 				if seen[h] == 0 {
